@@ -139,3 +139,13 @@ Example C03_noin_conditional_model :
   parse 100 0 true [(false, a); (false, TQ); (false, b); (false, TColon); (false, c); (false, TOp In); (false, d)]
     = Some (ECond (EAtom (AId 1%Z)) (EAtom (AId 2%Z)) (EAtom (AId 3%Z)), [(false, TOp In); (false, d)]).
 Proof. vm_compute. auto. Qed.
+
+(* the no-in flag after /repo 24f7b9d (ES5 11.8 RelationalExpressionNoIn): inside a for
+   initialiser the right operand of < leaves `in` to the for-in header; in brackets it does not *)
+Example C03_noin_relational_model :
+  let a := TAtom (AId 1%Z) in let b := TAtom (AId 2%Z) in let c := TAtom (AId 3%Z) in
+  parse 100 1 true [(false, a); (false, TOp Lt); (false, b); (false, TOp In); (false, c)]
+    = Some (EBin Lt (EAtom (AId 1%Z)) (EAtom (AId 2%Z)), [(false, TOp In); (false, c)]) /\
+  parse 100 1 true [(false, a); (false, TOp Lt); (false, TLP); (false, b); (false, TOp In); (false, c); (false, TRP)]
+    = Some (EBin Lt (EAtom (AId 1%Z)) (EBin In (EAtom (AId 2%Z)) (EAtom (AId 3%Z))), []).
+Proof. vm_compute. auto. Qed.
